@@ -88,3 +88,49 @@ package ollamarunner
 //@   loop 1 invariant longestSlot != nil ==> !longestSlot.InUse && 0 <= longest && longest <= len(longestSlot.Inputs) && longest <= len(prompt)
 //@   loop 1 invariant longestSlot != nil ==> forall k int :: 0 <= k && k < longest ==> longestSlot.Inputs[k].Token == prompt[k].Token && longestSlot.Inputs[k].MultimodalHash == prompt[k].MultimodalHash
 //@   loop 1 invariant longestSlot != nil ==> longest == len(longestSlot.Inputs) || longest == len(prompt) || longestSlot.Inputs[longest].Token != prompt[longest].Token || longestSlot.Inputs[longest].MultimodalHash != prompt[longest].MultimodalHash
+
+// ---- library functions that never return a nil error ----
+// (declared once, here; the llamarunner contract file relies on the same two clauses)
+//@ extern func errors.New
+//@   modifies nothing
+//@   ensures result != nil
+//@ extern func fmt.Errorf
+//@   modifies nothing
+//@   ensures result != nil
+
+// ---- ShiftCacheSlot ----
+// Success (nil): Inputs' == Inputs[:numKeep] ++ Inputs[numKeep+d:] where d = old length - new
+// length, the kept prefix is untouched (numKeep <= new length when anything was discarded),
+// at least one cache entry is free afterwards, a full context loses half of its non-kept
+// window, the cache was asked to remove exactly [numKeep, numKeep+d) of this slot's sequence,
+// and the cache still holds one entry per recorded input.
+// Failure (*ErrReprocessInputs): the recorded inputs are cleared AND the cache holds nothing
+// for the sequence; the inputs handed back for reprocessing are Inputs[:numKeep] ++ Inputs[numKeep+d:].
+// Any other error: nothing changed.
+// Loop 1 is the in-place shift.
+
+//@ func (*InputCache).ShiftCacheSlot
+//@   requires 0 <= numKeep && len(slot.Inputs) < (1 << 31)
+//@   requires c.cache != nil ==> kvlen(c.cache.ghost_ver, slot.Id) == len(slot.Inputs)
+//@   modifies slot.Inputs, slot.Inputs[all], c.cache.ghost_ver
+//@
+//@   ensures result == nil ==> len(slot.Inputs) <= old(len(slot.Inputs)) && len(slot.Inputs) < c.numCtx
+//@   ensures result == nil && len(slot.Inputs) < old(len(slot.Inputs)) ==> numKeep <= len(slot.Inputs)
+//@   ensures result == nil && old(len(slot.Inputs)) == c.numCtx ==> old(len(slot.Inputs)) - len(slot.Inputs) == max((c.numCtx - numKeep) / 2, 1)
+//@   ensures result == nil ==> forall k int :: 0 <= k && k < numKeep && k < len(slot.Inputs) ==> slot.Inputs[k] == old(slot.Inputs[k])
+//@   ensures result == nil ==> forall k int, d int :: numKeep <= k && k < len(slot.Inputs) && d == old(len(slot.Inputs)) - len(slot.Inputs) ==> slot.Inputs[k] == old(slot.Inputs[k + d])
+//@   ensures result == nil && c.cache != nil ==> kvlen(c.cache.ghost_ver, slot.Id) == len(slot.Inputs)
+//@   ensures tagis(result, "*ErrReprocessInputs") ==> len(slot.Inputs) == 0
+//@   ensures tagis(result, "*ErrReprocessInputs") && c.cache != nil ==> kvlen(c.cache.ghost_ver, slot.Id) == 0
+//@   ensures result != nil && !tagis(result, "*ErrReprocessInputs") ==> slot.Inputs == old(slot.Inputs) && c.cache.ghost_ver == old(c.cache.ghost_ver)
+//@
+//@   assert-at call Remove #1 : arg1 == slot.Id && arg2 == numKeep && arg3 == numKeep + discard && 0 < discard && arg3 <= inputLen
+//@   assert-at call Remove #2 : arg1 == slot.Id && arg2 == 0 && arg3 == 2147483647      -- "remove the whole sequence"
+//@   assert-at return #3 : len(newInputs) == inputLen - discard
+//@   assert-at return #3 : forall k int :: 0 <= k && k < numKeep ==> newInputs[k] == old(slot.Inputs[k])
+//@   assert-at return #3 : forall k int :: numKeep <= k && k < inputLen - discard ==> newInputs[k] == old(slot.Inputs[k + discard])
+//@
+//@   loop 1 invariant numKeep + discard <= i && i <= inputLen && slot.Inputs == old(slot.Inputs)
+//@   loop 1 invariant forall k int :: 0 <= k && k < numKeep ==> slot.Inputs[k] == old(slot.Inputs[k])
+//@   loop 1 invariant forall k int :: numKeep <= k && k < i - discard ==> slot.Inputs[k] == old(slot.Inputs[k + discard])
+//@   loop 1 invariant forall k int :: i <= k && k < inputLen ==> slot.Inputs[k] == old(slot.Inputs[k])
